@@ -48,12 +48,20 @@ def sh(cmd, timeout=1200, cwd=None, env=None, inp=None):
 
 # ----------------------------------------------------------------------------- Coq side
 def coq_files():
+    """Every .v under coq/theories belongs to the development (_CoqProject is regenerated from the tree)."""
     out = []
-    for l in open(os.path.join(COQ, '_CoqProject')):
-        l = l.strip()
-        if l.endswith('.v'):
-            out.append(l)
-    return out
+    for d, _, fs in os.walk(os.path.join(COQ, 'theories')):
+        for f in fs:
+            if f.endswith('.v'):
+                out.append(os.path.relpath(os.path.join(d, f), COQ))
+    return sorted(out)
+
+
+def write_coqproject():
+    txt = '-Q theories BNP\n' + '\n'.join(coq_files()) + '\n'
+    p = os.path.join(COQ, '_CoqProject')
+    if not os.path.exists(p) or open(p).read() != txt:
+        open(p, 'w').write(txt)
 
 
 def scan_forbidden():
@@ -91,6 +99,7 @@ def coq_build(timeout=1500):
     tlog = ''
     if os.path.exists(tr):
         rc, tlog = sh([PY, tr], timeout=300, cwd=ROOT, env={'PYTHONPATH': REPO})
+    write_coqproject()
     cmd = ('flock %s/.buildlock sh -c "coq_makefile -f _CoqProject -o Makefile >/dev/null 2>&1 && '
            'make -k -j%d 2>&1"' % (WORK, NPROC))
     rc, out = sh(cmd, timeout=timeout, cwd=COQ)
@@ -281,7 +290,12 @@ def load_findings():
     if not os.path.exists(p):
         return {}
     d = json.load(open(p))
-    return {f['id']: f for f in d.get('findings', [])}
+    out = {f['id']: f for f in d.get('findings', [])}
+    extra = os.environ.get('VERIF_EXTRA_FINDINGS')      # builders' not-yet-merged fragments (development only)
+    if extra and os.path.exists(extra):
+        for f in json.load(open(extra)).get('findings', []):
+            out[f['id']] = f
+    return out
 
 
 def case_hash(c):
